@@ -293,6 +293,35 @@ func genC14(tier string, seed int64) (*Family, error) {
 	}
 	vnd.Reach("executed")
 `)
+	// the pool's selected stop-tag wrappers, names holding an unknown one: the first selected rule sets the tag
+	add("P_selected_tag_unknown_name", "pool", "pool selected stop-tag calls with an unknown name in the list: the tag is still obeyed", `	apis := map[string]interface{}{"unused": int64(0)}
+	text := "rule \"r0\" salience 9 begin\n ev(\"r0.s\")\n if set {\n  stag.StopTag = true\n }\n ev(\"r0.e\")\nend\nrule \"r1\" salience 5 begin\n ev(\"r1.s\")\n ev(\"r1.e\")\nend\nrule \"r2\" salience 3 begin\n ev(\"r2.s\")\n ev(\"r2.e\")\nend\n"
+	gp, e := engine.NewGenginePool(1, 2, engine.SortModel, text, apis)
+	must(e, "pool construction")
+	for _, names := range [][]string{{"r0", "r1", "r2"}, {"zz", "r0", "r1"}, {"r0", "zz", "r2"}, {"r0", "r1", "zz"}} {
+		for which := 0; which < 2; which++ {
+			set, b := vnd.Bool("set"), vnd.Bool("b")
+			stag := &engine.Stag{}
+			data := map[string]interface{}{"ev": func(x string) { vnd.Event(x) }, "stag": stag, "set": set}
+			c1, c2 := vnd.Count("r1.s"), vnd.Count("r2.s")
+			var err error
+			if which == 0 {
+				err, _ = gp.ExecuteSelectedRulesWithControlAndStopTag(data, b, stag, names)
+			} else {
+				err, _ = gp.ExecuteSelectedRulesWithControlAndStopTagAsGivenSortedName(data, b, stag, names)
+			}
+			vnd.Quiesce()
+			vnd.Assert(err == nil, "no rule fails")
+			later := (vnd.Count("r1.s") - c1) + (vnd.Count("r2.s") - c2)
+			if set {
+				vnd.Assert(later == 0, "once the first selected rule set the tag no further rule starts")
+			} else {
+				vnd.Assert(later == countKnown(names)-1, "without the tag every known selected rule runs")
+			}
+		}
+	}
+	vnd.Reach("executed")
+`)
 	// a second call that is handed the same Stag object while it is still set: the tag counts from the start,
 	// so exactly the first rule of the order runs (the entry points test the tag after a rule, not before)
 	for _, d := range []struct{ id, call string }{
@@ -447,6 +476,16 @@ func genC14(tier string, seed int64) (*Family, error) {
 type tagCtl struct{ t *engine.Stag }
 
 func (c *tagCtl) Stop() { c.t.StopTag = true }
+
+func countKnown(names []string) int {
+	k := 0
+	for _, nm := range names {
+		if nm == "r0" || nm == "r1" || nm == "r2" {
+			k++
+		}
+	}
+	return k
+}
 
 // checkMixTag (second call, events counted from mark): if the first rule sets the tag or fails
 // nothing else starts, otherwise every other rule runs once; error iff a started rule failed
@@ -932,6 +971,42 @@ func H_case_different_names() {
 	vnd.Reach("executed")
 }
 `)
+	b.WriteString(`
+// one builder over three calls: the name N is a local of r0, then injected by the host, then removed again
+func H_injected_later_then_removed() {
+	v := vnd.Int64("v")
+	dc := newDC(nil)
+	rb := buildText(dc, "rule \"r0\" salience 9 begin\n ev(\"r0.s\")\n N = 7\n ev(\"r0.e\")\n return N\nend\nrule \"r1\" salience 5 begin\n ev(\"r1.s\")\n y = N\n ev(\"r1.e\")\n return y\nend\n")
+	eng := engine.NewGengine()
+	for round := 0; round < 2; round++ {
+		e1 := vnd.Count("r1.e")
+		err := eng.Execute(rb, true)
+		vnd.Assert(err != nil && vnd.Count("r1.e") == e1, "a rule reading another rule's local fails")
+		_, ge := dc.Get("N")
+		vnd.Assert(ge != nil, "a local never shows up among the injected names")
+		// the host injects N: the name now denotes the injected object, for every rule of the call
+		n := v
+		dc.Add("N", &n)
+		err = eng.Execute(rb, true)
+		res, _ := eng.GetRulesResultMap()
+		vnd.Assert(err == nil, "both rules succeed on the injected name")
+		vnd.Assert(n == 7, "the assignment reaches the injected object")
+		y, ok := res["r1"].(*int64) // a pointer-injected scalar reads as the injected pointer
+		vnd.Assert(ok && y == &n, "injected names are shared by all rules of the call")
+		// the host removes N again: it is a local of r0 once more
+		dc.Del("N")
+		n = v
+		e1 = vnd.Count("r1.e")
+		err = eng.Execute(rb, true)
+		vnd.Assert(err != nil && vnd.Count("r1.e") == e1, "a rule reading another rule's local fails")
+		vnd.Assert(n == v, "assigning to a local does not reach an object that is no longer injected")
+		_, ge = dc.Get("N")
+		vnd.Assert(ge != nil, "a local never shows up among the injected names")
+	}
+	vnd.Reach("executed")
+}
+`)
+	fam.Instances = append(fam.Instances, Instance{Func: "H_injected_later_then_removed", Stratum: "inject-remove", Desc: "a name that is local, then injected, then removed, over calls on one builder", Expect: []string{"executed"}})
 	fam.Instances = append(fam.Instances, Instance{Func: "H_struct_value_local_method", Stratum: "struct-local:method", Desc: "value-receiver methods on struct-valued locals of three rules", Expect: []string{"executed"}},
 		Instance{Func: "H_case_different_names", Stratum: "case-names", Desc: "locals total / count next to injected Total / Count", Expect: []string{"executed"}})
 	fam.Instances = append(fam.Instances, Instance{Func: "H_same_rule_twice_conc", Stratum: "same-rule-overlap", Desc: "two overlapping executions of one rule inside its conc block", Expect: []string{"executed"}},
